@@ -99,6 +99,13 @@ Theorem C09_abort_noop_on_completed : forall s d, completed s = true -> bapply s
 Proof. exact abort_noop_on_completed. Qed.
 Print Assumptions C09_abort_noop_on_completed.
 
+(* ... in particular not on its drop flag; and no operation but an Abort that takes effect ever touches that flag *)
+Theorem C09_drop_flag_changes_only_by_an_effective_abort : forall s o,
+  rm (fst (bapply s o)) <> rm s ->
+  exists d, o = Abort d /\ aborted s = false /\ completed s = false /\ rm (fst (bapply s o)) = d.
+Proof. exact rm_changes_only_by_effective_abort. Qed.
+Print Assumptions C09_drop_flag_changes_only_by_an_effective_abort.
+
 Theorem C09_abort_aborts : forall s d,
   aborted s = false -> completed s = false ->
   let s' := fst (bapply s (Abort d)) in
